@@ -216,7 +216,7 @@ func Enum(c explore.Chooser) *prog.Program {
 	rootPath := prog.Base() + "/enums"
 	subPath := rootPath + "/sub"
 
-	loc := s.Pick("T1.loc", "analysed-file", "other-file", "sub-package", "both-packages", "module-root-package")
+	loc := s.Pick("T1.loc", "analysed-file", "other-file", "sub-package", "both-packages", "module-root-package", "sub-package-constants-only-in-root")
 	t1 := enumType(s, "T1", "Level", "Lv", "int")
 	second := s.Pick("T2", "absent", "present", "present-in-sub", "present-in-same-named-package")
 	t2 := ""
@@ -241,6 +241,12 @@ func Enum(c explore.Chooser) *prog.Program {
 		bfile.WriteString(t1)
 	case "sub-package":
 		sub.WriteString(t1)
+		t1ref = "sub.Level"
+		needSub = true
+	case "sub-package-constants-only-in-root":
+		// the type has no constant in its own package; the importing package declares one
+		sub.WriteString("type Level int\n\n")
+		a.WriteString("const DefaultLevel sub.Level = 1\n\n")
 		t1ref = "sub.Level"
 		needSub = true
 	case "module-root-package":
